@@ -225,9 +225,22 @@ bool ComponentEntity::replaceComponent(size_t index, const ComponentPtr &newComp
 {
     bool status = false;
     auto oldComponent = component(index);
-    ParentedEntityPtr parent = nullptr;
-    if (oldComponent != nullptr) {
-        parent = oldComponent->parent();
+    if ((newComponent == nullptr) || (oldComponent == nullptr)) {
+        return false;
+    }
+    ParentedEntityPtr parent = oldComponent->parent();
+    if ((newComponent == oldComponent) || (newComponent == parent) || ((parent != nullptr) && parent->hasAncestor(newComponent))) {
+        // Nothing to replace, or the replacement is an ancestor of the position it would be placed at.
+        return newComponent == oldComponent;
+    }
+    if (newComponent->hasParent()) {
+        // The replacement is moved: it must not stay listed by its previous parent.
+        auto previousParent = newComponent->parent();
+        removeComponentFromEntity(previousParent, newComponent);
+        if (previousParent == parent) {
+            // The list has changed: locate the component to replace again.
+            index = size_t(std::find(pFunc()->mComponents.begin(), pFunc()->mComponents.end(), oldComponent) - pFunc()->mComponents.begin());
+        }
     }
 
     if (removeComponent(index)) {
